@@ -336,6 +336,7 @@ structure HostCodec.Lawful (C : HostCodec) : Prop where
   alpha4 : ∀ s a, C.parse4 s = some a → ∀ c ∈ s, c ∈ ipv4Alphabet
   alpha6 : ∀ s a, C.parse6 s = some a → ∀ c ∈ s, c ∈ ipv6Alphabet
   colon6 : ∀ a, a < 2 ^ 128 → ':' ∈ C.show6 a
+  disjoint : ∀ s a, C.parse4 s = some a → C.parse6 s = none
 
 def Host.Valid : Host → Prop
   | .v4 a => a < 2 ^ 32
@@ -1193,6 +1194,304 @@ theorem txt_parse_show (C : HostCodec) (hC : C.Lawful) (l : List ScionAddr) (hne
     omega
 
 
+/-! ## the spelling predicates are exact: every spelling is accepted (so `…Sp` *is* the accepted language) -/
+
+theorem digitVal_lower {r : Nat} (hr : r = 10 ∨ r = 16) (c : Char) : digitVal r (lowerHexChar c) = digitVal r c := by
+  unfold lowerHexChar
+  repeat' split
+  all_goals (first | rfl | (subst_vars; rcases hr with rfl | rfl <;> decide))
+
+theorem parseDigits_map_lower {r : Nat} (hr : r = 10 ∨ r = 16) : ∀ (s : Str) (acc : Nat),
+    parseDigits r (s.map lowerHexChar) acc = parseDigits r s acc
+  | [], _ => rfl
+  | c :: cs, acc => by
+    simp only [List.map_cons, parseDigits, digitVal_lower hr c]
+    cases digitVal r c with
+    | none => rfl
+    | some d => exact parseDigits_map_lower hr cs _
+
+theorem lower_plus_not_digit : lowerHexChar '+' ∉ lowerDigits := by decide
+
+/-- **every spelling of a number below `2^bits` is accepted** by `from_str_radix` -/
+theorem numSp_accepted {r bits n : Nat} {s : Str} (hr : r = 10 ∨ r = 16) (h : NumSp r n s) (hn : n < 2 ^ bits) :
+    parseUInt r bits s = some n := by
+  have h2 : 2 ≤ r := by rcases hr with rfl | rfl <;> omega
+  obtain ⟨plus, k, body, rfl, hb⟩ := h
+  have hbody : parseDigits r body 0 = some n := by
+    rw [← parseDigits_map_lower hr, hb, parseDigits_showNat hr]
+  have hbne : body ≠ [] := by
+    intro h0; subst h0; simp at hb; exact showNat_ne_nil h2 n (by simpa using hb.symm)
+  have hall : parseDigits r (List.replicate k '0' ++ body) 0 = some n := by rw [parseDigits_zeros hr, hbody]
+  have hne : List.replicate k '0' ++ body ≠ [] := by simp [hbne]
+  -- the digits do not start with '+'
+  have hhead : ∀ c t, List.replicate k '0' ++ body = c :: t → c ≠ '+' := by
+    intro c t hct hc
+    subst hc
+    cases k with
+    | zero =>
+      simp at hct
+      have : lowerHexChar '+' ∈ showNat r n := by rw [← hb, hct]; simp
+      exact lower_plus_not_digit (showNat_chars h2 n _ this)
+    | succ k => simp [List.replicate_succ] at hct
+  unfold parseUInt
+  have hstrip : stripPlus ((if plus = true then ['+'] else []) ++ List.replicate k '0' ++ body) = List.replicate k '0' ++ body := by
+    cases plus with
+    | true => simp [stripPlus]
+    | false =>
+      simp only [Bool.false_eq_true, if_false, List.nil_append]
+      cases hz : List.replicate k '0' ++ body with
+      | nil => exact absurd hz hne
+      | cons c t => simp [stripPlus, hhead c t hz]
+  rw [hstrip]
+  cases hz : List.replicate k '0' ++ body with
+  | nil => exact absurd hz hne
+  | cons c t =>
+    simp only
+    rw [← hz, hall]
+    simp [hn]
+
+/-- `Isd::from_str` accepts exactly the decimal spellings of the numbers below `2^16` -/
+theorem isd_accepts_iff (s : Str) (v : Nat) : parseIsd s = some v ↔ IsdSp v s ∧ v < 2 ^ ISD_BITS :=
+  ⟨isd_accept_only_spellings s v, fun ⟨h, hv⟩ => numSp_accepted (Or.inl rfl) h hv⟩
+
+theorem sep_not_in_numSp {r n : Nat} {s : Str} (hr : 2 ≤ r) (h : NumSp r n s) (c : Char)
+    (h1 : c ≠ '+') (h2 : c ∉ lowerDigits) (h3 : c ∉ upperDigits) : c ∉ s := by
+  intro hm
+  rcases numSp_chars hr h c hm with h | h | h
+  · exact h1 h
+  · exact h2 h
+  · exact h3 h
+
+/-- `Asn::from_str` accepts exactly the spellings `AsnSp` -/
+theorem asn_accepts_iff (s : Str) (v : Nat) : parseAsn s = some v ↔ AsnSp v s ∧ v ≤ ASN_MAX := by
+  refine ⟨asn_accept_only_spellings s v, ?_⟩
+  rintro ⟨h | ⟨a, b, c, sa, sb, sc, ha, hb, hc, rfl, rfl, spa, spb, spc⟩, hv⟩
+  · obtain ⟨hle, hsp⟩ := h
+    unfold parseAsn
+    rw [numSp_accepted (Or.inl rfl) hsp (by simp [ASN_PARSE_DECIMAL_MAX, ASN_DECIMAL_PARSE_BITS] at hle ⊢; omega)]
+    simp [hle]
+  · unfold parseAsn
+    have hsep : ASN_SEP ∈ sa ++ ASN_SEP :: (sb ++ ASN_SEP :: sc) := by simp
+    rw [parseUInt_none_of_mem (Or.inl rfl) ASN_SEP hsep sep_not_digit.1 sep_not_digit.2.1 sep_not_digit.2.2]
+    have hna := sep_not_in_numSp (by omega) spa ASN_SEP sep_not_digit.1 sep_not_digit.2.1 sep_not_digit.2.2
+    have hnb := sep_not_in_numSp (by omega) spb ASN_SEP sep_not_digit.1 sep_not_digit.2.1 sep_not_digit.2.2
+    have h3 : ASN_NUMBER_PARTS = 3 := rfl
+    simp only [h3, splitN_three, splitOnce_append hna, splitOnce_append hnb]
+    simp only [foldAsnParts, ASN_PART_RADIX, ASN_PART_PARSE_BITS, ASN_BITS_PER_PART,
+      numSp_accepted (Or.inr rfl) spa ha, numSp_accepted (Or.inr rfl) spb hb, numSp_accepted (Or.inr rfl) spc hc]
+    simp [ASN_MAX] at hv ⊢
+    omega
+
+theorem ia_sep_not_digit : IA_SEP ≠ '+' ∧ IA_SEP ∉ lowerDigits ∧ IA_SEP ∉ upperDigits ∧ IA_SEP ≠ ASN_SEP := by decide
+
+theorem ia_sep_not_in_asnSp {v : Nat} {s : Str} (h : AsnSp v s) : IA_SEP ∉ s := by
+  obtain ⟨h1, h2, h3, h4⟩ := ia_sep_not_digit
+  rcases h with ⟨_, hsp⟩ | ⟨a, b, c, sa, sb, sc, _, _, _, _, rfl, spa, spb, spc⟩
+  · exact sep_not_in_numSp (by omega) hsp _ h1 h2 h3
+  · simp only [List.mem_append, List.mem_cons, not_or]
+    exact ⟨sep_not_in_numSp (by omega) spa _ h1 h2 h3, h4, sep_not_in_numSp (by omega) spb _ h1 h2 h3, h4,
+      sep_not_in_numSp (by omega) spc _ h1 h2 h3⟩
+
+/-- `IsdAsn::from_str` accepts exactly the spellings `IsdAsnSp` -/
+theorem isdAsn_accepts_iff (s : Str) (v : Nat) : parseIsdAsn s = .ok v ↔ IsdAsnSp v s ∧ v < 2 ^ IA_BITS := by
+  refine ⟨isdAsn_accept_only_spellings s v, ?_⟩
+  rintro ⟨⟨i, a, si, sa, hi, ha, rfl, rfl, spi, spa⟩, _⟩
+  obtain ⟨h1, h2, h3, _⟩ := ia_sep_not_digit
+  have hni : IA_SEP ∉ si := sep_not_in_numSp (by omega) spi _ h1 h2 h3
+  have hna : IA_SEP ∉ sa := ia_sep_not_in_asnSp spa
+  unfold parseIsdAsn
+  have hcount : (((si ++ IA_SEP :: sa).filter (· == IA_SEP)).take 2).length = 1 := by
+    simp [List.filter_append, filter_sep_of_not_mem hni, filter_sep_of_not_mem hna]
+  rw [if_neg (by rw [hcount]; simp), splitOnce_append hni]
+  simp only [(isd_accepts_iff si i).mpr ⟨spi, hi⟩, (asn_accepts_iff sa a).mpr ⟨spa, ha⟩]
+
+theorem svc_parse_table_ok :
+    (∀ p ∈ SVC_PARSE_NAMES, lookupName SVC_PARSE_NAMES p.1 = some p.2 ∧ SVC_SUFFIX_SEP ∉ p.1) ∧
+    SVC_SUFFIX_SEP ≠ '+' ∧ SVC_SUFFIX_SEP ∉ lowerDigits ∧ SVC_SUFFIX_SEP ∉ upperDigits ∧
+    SVC_SUFFIX_SEP ∉ SVC_PARSE_HEX_OPEN ∧ SVC_SUFFIX_SEP ∉ SVC_PARSE_HEX_CLOSE ∧ SVC_PARSE_HEX_OPEN ≠ [] ∧
+    (∀ p ∈ SVC_PARSE_NAMES, p.1.head? ≠ SVC_PARSE_HEX_OPEN.head?) := by decide
+
+theorem svcBaseSp_accepted {a : Nat} {base : Str} (ha : a < SVC_MULTICAST_FLAG) (h : SvcBaseSp a base) :
+    SVC_SUFFIX_SEP ∉ base ∧ parseSvcBase base = some a := by
+  obtain ⟨htab, hp, hl, hu, ho, hc, hne, hhead⟩ := svc_parse_table_ok
+  obtain ⟨_, _, _, _, _, _, _, _, _, hrad, hbits, _, hflag, _⟩ := svc_tables_ok
+  rcases h with h | ⟨hex, rfl, hsp⟩
+  · obtain ⟨h1, h2⟩ := htab _ h
+    exact ⟨h2, by simp [parseSvcBase, h1]⟩
+  · refine ⟨?_, ?_⟩
+    · simp only [List.mem_append, not_or]
+      exact ⟨⟨ho, sep_not_in_numSp (by omega) hsp _ hp hl hu⟩, hc⟩
+    · have hnone : lookupName SVC_PARSE_NAMES (SVC_PARSE_HEX_OPEN ++ hex ++ SVC_PARSE_HEX_CLOSE) = none := by
+        apply lookupName_none
+        intro p hp' heq
+        have := hhead p hp'
+        rw [heq] at this
+        apply this
+        cases hO : SVC_PARSE_HEX_OPEN with
+        | nil => exact absurd hO hne
+        | cons x xs => simp
+      unfold parseSvcBase
+      rw [hnone]
+      simp only
+      have h1 : stripPrefix SVC_PARSE_HEX_OPEN (SVC_PARSE_HEX_OPEN ++ hex ++ SVC_PARSE_HEX_CLOSE) = some (hex ++ SVC_PARSE_HEX_CLOSE) := by
+        rw [stripPrefix_some]; simp
+      have h2 : stripSuffix SVC_PARSE_HEX_CLOSE (hex ++ SVC_PARSE_HEX_CLOSE) = some hex := by rw [stripSuffix_some]
+      rw [h1]; simp only; rw [h2]; simp only
+      rw [hrad, hbits, numSp_accepted (Or.inr rfl) hsp (by rw [hflag] at ha; omega)]
+      have hanyM : isMulticast a = false := by
+        simp only [isMulticast]; rw [hflag] at ha ⊢
+        have : a / 2 ^ 15 = 0 := Nat.div_eq_of_lt ha
+        simp [this]
+      simp [hanyM]
+
+/-- `ServiceAddr::from_str` accepts exactly the spellings `SvcSp` -/
+theorem svc_accepts_iff (s : Str) (v : Nat) : parseSvc s = some v ↔ SvcSp v s ∧ v < 2 ^ SVC_BITS := by
+  refine ⟨svc_accept_only_spellings s v, ?_⟩
+  rintro ⟨⟨a, base, ha, hb, hs⟩, _⟩
+  obtain ⟨_, _, _, _, _, _, _, hAM, _, _, _, _, hflag, _⟩ := svc_tables_ok
+  obtain ⟨hsep, hpb⟩ := svcBaseSp_accepted ha hb
+  have hanyM : isMulticast a = false := by
+    simp only [isMulticast]; rw [hflag] at ha ⊢
+    have : a / 2 ^ 15 = 0 := Nat.div_eq_of_lt ha
+    simp [this]
+  unfold parseSvc
+  rcases hs with ⟨hv, hs | hs⟩ | ⟨hv, hs⟩ <;> subst hv <;> subst hs
+  · have : splitSvcSuffix s = (s, SVC_SUFFIX_ANYCAST) := by
+      unfold splitSvcSuffix; rw [splitOnce_of_not_mem hsep]
+    rw [this]; simp [hpb]
+  · have : splitSvcSuffix (base ++ SVC_SUFFIX_SEP :: SVC_SUFFIX_ANYCAST) = (base, SVC_SUFFIX_ANYCAST) := by
+      unfold splitSvcSuffix; rw [splitOnce_append hsep]
+    rw [this]; simp [hpb]
+  · have : splitSvcSuffix (base ++ SVC_SUFFIX_SEP :: SVC_SUFFIX_MULTICAST) = (base, SVC_SUFFIX_MULTICAST) := by
+      unfold splitSvcSuffix; rw [splitOnce_append hsep]
+    rw [this]
+    simp only [hpb]
+    rw [if_neg (Ne.symm hAM)]
+    simp [toMulticast, hanyM]
+
+/-- a spelling determines the value (corollary of exactness) -/
+theorem isdAsnSp_unique {v w : Nat} {s : Str} (h1 : IsdAsnSp v s) (h1' : v < 2 ^ IA_BITS) (h2 : IsdAsnSp w s) (h2' : w < 2 ^ IA_BITS) :
+    v = w := by
+  have a := (isdAsn_accepts_iff s v).mpr ⟨h1, h1'⟩
+  have b := (isdAsn_accepts_iff s w).mpr ⟨h2, h2'⟩
+  rw [a] at b; cases b; rfl
+
+theorem hostSp_accepted {C : HostCodec} (hC : C.Lawful) {h : Host} {s : Str} (hs : HostSp C h s) (hv : h.Valid) :
+    parseHost C s = some h := by
+  cases h with
+  | v4 a => simp [parseHost, show C.parse4 s = some a from hs]
+  | v6 a =>
+    have h6 : C.parse6 s = some a := hs
+    have h4 : C.parse4 s = none := by
+      cases hp : C.parse4 s with
+      | none => rfl
+      | some b => rw [hC.disjoint s b hp] at h6; cases h6
+    simp [parseHost, h4, h6]
+  | svc v =>
+    have hp : parseSvc s = some v := (svc_accepts_iff s v).mpr ⟨hs, hv⟩
+    obtain ⟨c, hc, hn⟩ := parseSvc_nonip hp
+    have h4 : C.parse4 s = none := by
+      cases hp4 : C.parse4 s with
+      | none => rfl
+      | some b => exact absurd (alpha4_sub c (hC.alpha4 _ _ hp4 c hc)) hn
+    have h6 : C.parse6 s = none := by
+      cases hp6 : C.parse6 s with
+      | none => rfl
+      | some b => exact absurd (hC.alpha6 _ _ hp6 c hc) hn
+    simp [parseHost, h4, h6, hp]
+
+/-- `ScionHostAddr::from_str` accepts exactly the spellings `HostSp` -/
+theorem host_accepts_iff (C : HostCodec) (hC : C.Lawful) (s : Str) (h : Host) :
+    parseHost C s = some h ↔ HostSp C h s ∧ h.Valid :=
+  ⟨host_accept_only_spellings C hC s h, fun ⟨hs, hv⟩ => hostSp_accepted hC hs hv⟩
+
+theorem addr_sep_facts : ADDR_SEP ≠ '+' ∧ ADDR_SEP ∉ lowerDigits ∧ ADDR_SEP ∉ upperDigits ∧ ADDR_SEP ≠ ASN_SEP ∧ ADDR_SEP ≠ IA_SEP := by
+  decide
+
+theorem addr_sep_not_in_iaSp {v : Nat} {s : Str} (h : IsdAsnSp v s) : ADDR_SEP ∉ s := by
+  obtain ⟨h1, h2, h3, h4, h5⟩ := addr_sep_facts
+  obtain ⟨i, a, si, sa, _, _, _, rfl, spi, spa⟩ := h
+  simp only [List.mem_append, List.mem_cons, not_or]
+  refine ⟨sep_not_in_numSp (by omega) spi _ h1 h2 h3, h5, ?_⟩
+  rcases spa with ⟨_, hsp⟩ | ⟨a, b, c, sa, sb, sc, _, _, _, _, rfl, spa, spb, spc⟩
+  · exact sep_not_in_numSp (by omega) hsp _ h1 h2 h3
+  · simp only [List.mem_append, List.mem_cons, not_or]
+    exact ⟨sep_not_in_numSp (by omega) spa _ h1 h2 h3, h4, sep_not_in_numSp (by omega) spb _ h1 h2 h3, h4,
+      sep_not_in_numSp (by omega) spc _ h1 h2 h3⟩
+
+theorem parseScionAddrT_spelled {α : Type} (ph : Str → Option α) {ia : Nat} {sia sh : Str}
+    (hsp : IsdAsnSp ia sia) (hia : ia < 2 ^ IA_BITS) :
+    parseScionAddrT ph (sia ++ ADDR_SEP :: sh) = match ph sh with | some h => .ok (ia, h) | none => .err := by
+  unfold parseScionAddrT
+  rw [splitN_two, splitOnce_append (addr_sep_not_in_iaSp hsp)]
+  simp only [(isdAsn_accepts_iff sia ia).mpr ⟨hsp, hia⟩]
+  cases ph sh <;> rfl
+
+/-- the three attempts of `ScionAddr::from_str` / `ScionSocketAddr::from_str` on a host spelling -/
+theorem host_attempts {C : HostCodec} (hC : C.Lawful) {h : Host} {sh : Str} (hs : HostSp C h sh) (hv : h.Valid) :
+    (∀ v, h = .svc v → parseSvc sh = some v) ∧
+    (∀ a, h = .v4 a → parseSvc sh = none ∧ C.parse4 sh = some a) ∧
+    (∀ a, h = .v6 a → parseSvc sh = none ∧ C.parse4 sh = none ∧ C.parse6 sh = some a) := by
+  refine ⟨?_, ?_, ?_⟩
+  · rintro v rfl; exact (svc_accepts_iff sh v).mpr ⟨hs, hv⟩
+  · rintro a rfl
+    have h4 : C.parse4 sh = some a := hs
+    exact ⟨parseSvc_none_of_ip (fun c hc => alpha4_sub c (hC.alpha4 _ _ h4 c hc)), h4⟩
+  · rintro a rfl
+    have h6 : C.parse6 sh = some a := hs
+    refine ⟨parseSvc_none_of_ip (hC.alpha6 _ _ h6), ?_, h6⟩
+    cases hp : C.parse4 sh with
+    | none => rfl
+    | some b => rw [hC.disjoint sh b hp] at h6; cases h6
+
+/-- `ScionAddr::from_str` accepts exactly the spellings `AddrSp` -/
+theorem scionAddr_accepts_iff (C : HostCodec) (hC : C.Lawful) (s : Str) (a : ScionAddr) :
+    parseScionAddr C s = .ok a ↔ AddrSp C a s ∧ a.Valid := by
+  refine ⟨scionAddr_accept_only_spellings C hC s a, ?_⟩
+  rintro ⟨⟨sia, sh, rfl, spia, sph⟩, hia, hv⟩
+  obtain ⟨ia, h⟩ := a
+  simp only at spia sph hia hv
+  obtain ⟨hsvc, h4, h6⟩ := host_attempts hC sph hv
+  unfold parseScionAddr
+  simp only [parseScionAddrT_spelled _ spia hia]
+  cases h with
+  | svc v => simp [hsvc v rfl]
+  | v4 a => obtain ⟨x, y⟩ := h4 a rfl; simp [x, y]
+  | v6 a => obtain ⟨x, y, z⟩ := h6 a rfl; simp [x, y, z]
+
+theorem port_sep_facts : PORT_SEP ≠ '+' ∧ PORT_SEP ∉ lowerDigits ∧ PORT_SEP ∉ upperDigits := by decide
+
+theorem parseSocketT_spelled {α : Type} (pa : Str → Res (Nat × α)) {inner sp : Str} {p : Nat}
+    (hsp : NumSp 10 p sp) (hp : p < 2 ^ PORT_BITS) :
+    parseSocketT pa (SOCK_OPEN :: (inner ++ SOCK_CLOSE :: PORT_SEP :: sp)) =
+      match pa inner with | .ok a => .ok (a, p) | .err => .err | .panic => .panic := by
+  obtain ⟨h1, h2, h3⟩ := port_sep_facts
+  unfold parseSocketT
+  have : SOCK_OPEN :: (inner ++ SOCK_CLOSE :: PORT_SEP :: sp) = ([SOCK_OPEN] ++ inner ++ [SOCK_CLOSE]) ++ PORT_SEP :: sp := by simp
+  rw [this, rsplitOnce_append (sep_not_in_numSp (by omega) hsp _ h1 h2 h3)]
+  simp only
+  have e1 : stripPrefix [SOCK_OPEN] ([SOCK_OPEN] ++ inner ++ [SOCK_CLOSE]) = some (inner ++ [SOCK_CLOSE]) := by
+    rw [stripPrefix_some]; simp
+  have e2 : stripSuffix [SOCK_CLOSE] (inner ++ [SOCK_CLOSE]) = some inner := by rw [stripSuffix_some]
+  rw [e1]; simp only; rw [e2]; simp only
+  rw [numSp_accepted (Or.inl rfl) hsp hp]
+  cases pa inner <;> rfl
+
+/-- `ScionSocketAddr::from_str` accepts exactly the spellings `SockSp` -/
+theorem socketAddr_accepts_iff (C : HostCodec) (hC : C.Lawful) (s : Str) (a : SocketAddr) :
+    parseSocketAddr C s = .ok a ↔ SockSp C a s ∧ a.Valid := by
+  refine ⟨socketAddr_accept_only_spellings C hC s a, ?_⟩
+  rintro ⟨⟨sa, sp, rfl, ⟨sia, sh, rfl, spia, sph⟩, spp⟩, hia, hv, hp⟩
+  obtain ⟨ia, h, p⟩ := a
+  simp only at spia sph spp hia hv hp
+  obtain ⟨hsvc, h4, h6⟩ := host_attempts hC sph hv
+  unfold parseSocketAddr
+  simp only [parseSocketT_spelled _ spp hp, parseScionAddrT_spelled _ spia hia]
+  cases h with
+  | svc v => simp [hsvc v rfl]
+  | v4 a => obtain ⟨x, y⟩ := h4 a rfl; simp [x, y]
+  | v6 a => obtain ⟨x, y, z⟩ := h6 a rfl; simp [x, y, z]
+
 /-! ## the hypotheses on the IP codec are satisfiable (non-vacuity of every theorem that takes `C.Lawful`)
 
 A deliberately simple codec – `"." decimal` for IPv4 values, `":" hex` for IPv6 values – is lawful.  (That *std's*
@@ -1269,6 +1568,14 @@ theorem toyCodec_lawful : toyCodec.Lawful where
       · cases h
     · cases h
   colon6 a _ := by simp [toyCodec]
+  disjoint s a h := by
+    simp only [toyCodec] at h ⊢
+    split at h
+    · next c r =>
+      split at h
+      · next hc => rw [if_neg]; intro hc'; rw [hc.1] at hc'; exact absurd hc'.1 (by decide)
+      · cases h
+    · cases h
 
 example : ∃ C : HostCodec, C.Lawful := ⟨toyCodec, toyCodec_lawful⟩
 example : parseSocketAddr toyCodec (showSocketAddr toyCodec ⟨0x1ff0000000110, .v4 0x0a000001, 1000⟩) =
